@@ -277,7 +277,7 @@ def _gen_source(rng, kind, quick):
             a = rng.randrange(1, n - length + 2)
         a = max(1, min(a, n - length + 1))
         b = a + length - 1
-        cap = 14000 if quick else 40000
+        cap = 14000 if quick else 20000
         tss = [t for t in VALID_TS if length * 24 * t <= cap] or [1]
         ts = rng.choice(tss if rng.random() < 0.6 else [t for t in tss if t <= 4] or [1])
         return _date(leap, a) + (0,) + _date(leap, b) + (23, ts, leap)
@@ -288,10 +288,14 @@ def _gen_source(rng, kind, quick):
     else:
         la, lb = rng.randrange(40, 200), rng.randrange(40, 160)
     a, b = n - la + 1, lb
-    cap = 14000 if quick else 40000
+    cap = 14000 if quick else 20000
     tss = [t for t in VALID_TS if (la + lb) * 24 * t <= cap] or [1]
     ts = rng.choice(tss if rng.random() < 0.6 else [t for t in tss if t <= 4] or [1])
     return _date(leap, a) + (0,) + _date(leap, b) + (23, ts, leap)
+
+
+def _fsteps(f):
+    return len(_ref_days(f)) * 24 * f[6]
 
 
 def _src_kind(c):
@@ -407,9 +411,9 @@ def _sources(ctx, rng, oracle=False):
         fixed += [(6, 1, 0, 5, 31, 23, 1, False), (1, 1, 0, 12, 31, 23, 2, True), (7, 2, 0, 7, 1, 23, 1, True)]
     out = [(c, _src_kind(c)) for c in fixed]
     if oracle:
-        kinds = ['annual'] * ctx.n(1, 6) + ['partial'] * ctx.n(6, 100) + ['wrapping'] * ctx.n(6, 100)
+        kinds = ['annual'] * ctx.n(1, 3) + ['partial'] * ctx.n(6, 40) + ['wrapping'] * ctx.n(6, 40)
     else:
-        kinds = ['annual'] * ctx.n(1, 10) + ['partial'] * ctx.n(9, 150) + ['wrapping'] * ctx.n(9, 150)
+        kinds = ['annual'] * ctx.n(1, 4) + ['partial'] * ctx.n(9, 60) + ['wrapping'] * ctx.n(9, 60)
     for k in kinds:
         out.append((_gen_source(rng, k, ctx.quick), k))
     return out
@@ -461,7 +465,7 @@ def _truncation_sensitive(smoys, rng, k=2):
 def _disc_sources(ctx, rng):
     """Discontinuous sources with holes / unsorted / repeated steps: [(fields, moys, kind)]."""
     out = []
-    for _ in range(ctx.n(25, 300)):
+    for _ in range(ctx.n(25, 120)):
         leap = rng.random() < 0.4
         ts = rng.choice(VALID_TS)
         step = 60 // ts
@@ -518,7 +522,7 @@ def correspondence(ctx):
 
     srcs = _sources(ctx, rng)
     period_cases, moy_cases, hoy_cases, pat_cases, val_cases = [], [], [], [], []
-    budget = ctx.n(2_500_000, 40_000_000)          # total values moved through period filters
+    budget = ctx.n(2_500_000, 12_000_000)          # total values moved through period filters
     used = 0
     for c, kind in srcs:
         ctx.count('src:' + kind)
@@ -535,6 +539,8 @@ def correspondence(ctx):
             used += nvals
             if used > budget and nvals > 3000:
                 continue
+            if _fsteps(f) > 40000 and not (f[2] == 0 and f[5] == 23):
+                continue                 # the period would be enumerated step by step (minutes per case)
             period_cases.append((c, f, kind, fk))
         smoys = _ref_moys(c)
         for req, rk in _moy_requests(rng, c, smoys, ctx.n(5, 8)):
@@ -571,7 +577,7 @@ def correspondence(ctx):
     compare_batch(ctx, 'cont_ap', period_cases,
                   lambda x: 'cont_ap %s %s' % (_line_ap(x[0]), _line_ap(x[1])),
                   _guard(lambda x: _show(_cont(x[0]).filter_by_analysis_period(_mk_ap(x[1])))), canon=_canon)
-    small = [x for x in period_cases if _ndays_of(x[0]) * 24 * x[0][6] <= ctx.n(1500, 9000)]
+    small = [x for x in period_cases if _ndays_of(x[0]) * 24 * x[0][6] <= ctx.n(1500, 4000) and _fsteps(x[1]) <= 20000]
     compare_batch(ctx, 'disc_ap', small,
                   lambda x: 'disc_ap %s %s %s' % (_line_ap(x[0]), _ints(_ref_moys(x[0])), _line_ap(x[1])),
                   _guard(lambda x: _show(_disc_of_cont(x[0]).filter_by_analysis_period(_mk_ap(x[1])))),
@@ -587,7 +593,7 @@ def correspondence(ctx):
     compare_batch(ctx, 'cont_moys', moy_cases,
                   lambda x: 'cont_moys %s %s' % (_line_ap(x[0]), _ints(x[1])),
                   _guard(lambda x: _show(_cont(x[0]).filter_by_moys(list(x[1])))), canon=_canon)
-    small = [x for x in moy_cases if _ndays_of(x[0]) * 24 * x[0][6] <= ctx.n(1500, 9000)]
+    small = [x for x in moy_cases if _ndays_of(x[0]) * 24 * x[0][6] <= ctx.n(1500, 4000)]
     compare_batch(ctx, 'disc_moys', small,
                   lambda x: 'disc_moys %s %s %s' % (_line_ap(x[0]), _ints(_ref_moys(x[0])), _ints(x[1])),
                   _guard(lambda x: _show(_disc_of_cont(x[0]).filter_by_moys(tuple(x[1])))), canon=_canon)
@@ -599,7 +605,7 @@ def correspondence(ctx):
                   lambda x: 'cont_hoys %s %d %s' % (_line_ap(x[0]), len(x[1]), ' '.join(_fbits(h) for h in x[1])),
                   _guard(lambda x: _show(_cont(x[0]).filter_by_hoys(list(x[1])))), canon=_canon,
                   key=lambda x: (x[0], tuple(repr(h) for h in x[1])))
-    small = [x for x in hoy_cases if _ndays_of(x[0]) * 24 * x[0][6] <= ctx.n(1500, 9000)]
+    small = [x for x in hoy_cases if _ndays_of(x[0]) * 24 * x[0][6] <= ctx.n(1500, 4000)]
     compare_batch(ctx, 'disc_hoys', small,
                   lambda x: 'disc_hoys %s %s %d %s' % (_line_ap(x[0]), _ints(_ref_moys(x[0])), len(x[1]),
                                                      ' '.join(_fbits(h) for h in x[1])),
@@ -671,7 +677,7 @@ def correspondence(ctx):
 
     # -- daily / monthly / monthly-per-hour collections
     dk, da, mk_, ma, pk, pa, kp = [], [], [], [], [], [], []
-    for _ in range(ctx.n(60, 800)):
+    for _ in range(ctx.n(60, 300)):
         leap = rng.random() < 0.4
         n = _ndays(leap)
         hdr = _rand_period(rng, leap)
@@ -1020,8 +1026,10 @@ def _oracle_cases(ctx):
         for _ in range(ctx.n(4, 8) if nvals > 5000 else ctx.n(8, 12)):
             fk = rng.choice(kinds)
             f = _gen_filter(rng, c, fk)
+            if _fsteps(f) > 40000 and not (f[2] == 0 and f[5] == 23):
+                continue
             yield 'period', {'src': list(c), 'path': 'cont', 'fkind': fk, 'filter': list(f)}
-            if nvals <= 1500 and rng.random() < 0.5:
+            if nvals <= 1500 and _fsteps(f) <= 20000 and rng.random() < 0.5:
                 yield 'period', {'src': list(c), 'path': 'disc', 'fkind': fk, 'filter': list(f)}
         smoys = _ref_moys(c)
         for _ in range(4):
@@ -1047,7 +1055,7 @@ def _oracle_cases(ctx):
                              'lo': rng.choice([None, -5, 0]), 'hi': rng.choice([None, 5, 12])}
             yield 'values', {'src': list(c), 'cls': 'cont', 'keys': [], 'vals': vals, 'kind': 'stmt',
                              'stmt': [rng.randrange(4), rng.randrange(-20, 20), rng.randrange(1, 6), rng.randrange(0, 3)]}
-    for _ in range(60 if not big else 600):
+    for _ in range(60 if not big else 250):
         leap = rng.random() < 0.4
         n = _ndays(leap)
         hdr = _rand_period(rng, leap)
